@@ -11,6 +11,7 @@ run (tolerance 1e-9, part of the verdict)."""
 import logging
 import math
 import os
+import shutil
 from fractions import Fraction
 
 from . import tlc
@@ -320,7 +321,12 @@ def _load():
     loader = importlib.machinery.SourceFileLoader('verif_martinize2', path)
     spec = importlib.util.spec_from_loader('verif_martinize2', loader)
     mod = importlib.util.module_from_spec(spec)
+    vlog = logging.getLogger('vermouth')
+    handlers = list(vlog.handlers)
     loader.exec_module(mod)                     # defines read_system / pdb_to_universal / martinize; entry() is not run
+    for h in list(vlog.handlers):               # the script attaches its console handler at import time
+        if h not in handlers:
+            vlog.removeHandler(h)
     _STATE['m2'] = mod
     return _STATE
 
@@ -374,9 +380,15 @@ def real_events(case):
     try:
         base = name.split('+')[0]
         path = os.path.join(common.REPO, TIER0, base, 'aa.pdb')
+        work = None
         if '+TYRPHOS' in name:
-            path = _ptyr_pdb(path, tlc.scratch('c01pdb_'))
-        system = m2.read_system(Path(path))
+            work = tlc.scratch('c01pdb_')
+            path = _ptyr_pdb(path, work)
+        try:
+            system = m2.read_system(Path(path))
+        finally:
+            if work:
+                shutil.rmtree(work, ignore_errors=True)       # pool workers do not run the atexit clean-up
         system = m2.pdb_to_universal(system, delete_unknown=True, force_field=ffs['charmm'],
                                      modifications=[list(x) for x in modifications])
     finally:
